@@ -515,14 +515,22 @@ class HostConnection(object):
         log.debug("Replacing connection (%s) to %s", id(connection), self.host)
         try:
             conn = self._session.cluster.connection_factory(self.host.endpoint, on_orphaned_stream_released=self.on_orphaned_stream_released)
-            if self._keyspace:
-                conn.set_keyspace_blocking(self._keyspace)
-            with self._lock:
-                if self.is_shutdown:
-                    # the pool was shut down while we were connecting
-                    conn.close()
-                    return
-                self._connection = conn
+            keyspace = self._keyspace
+            if keyspace:
+                conn.set_keyspace_blocking(keyspace)
+            while True:
+                with self._lock:
+                    if self.is_shutdown:
+                        # the pool was shut down while we were connecting
+                        conn.close()
+                        return
+                    if self._keyspace == keyspace:
+                        self._connection = conn
+                        break
+                    # the session keyspace was switched while we were connecting (the switch
+                    # did not see this connection): catch up before installing it
+                    keyspace = self._keyspace
+                conn.set_keyspace_blocking(keyspace)
         except Exception:
             log.warning("Failed reconnecting %s. Retrying." % (self.host.endpoint,))
             self._session.submit(self._replace, connection)
